@@ -124,7 +124,7 @@ Section Return.
   Proof. unfold OnionFail.failure_plain. rewrite app_length, hmac_length. lia. Qed.
 
   Lemma read_failure_plain k code d m :
-    (0 <= code < 65536)%Z -> 2 + length d < 65535 -> m < 65535 ->
+    (0 <= code < 65536)%Z -> (2 + Z.of_nat (length d) < 65535)%Z -> (Z.of_nat m < 65535)%Z ->
     read_err_packet (failure_plain k code d m) = Some (be16 code ++ d).
   Proof.
     intros Hc Hd Hm. unfold read_err_packet.
@@ -179,13 +179,13 @@ Section Return.
     end.
 
   Lemma data_loop_attributed before : forall idx ki after code d,
-    (0 <= code < 65536)%Z -> 2 + length d < 65535 ->
+    (0 <= code < 65536)%Z -> (2 + Z.of_nat (length d) < 65535)%Z ->
     let inner := crypt_data ki (failure_plain ki code d DEFAULT_MIN_FAILURE_PACKET_LEN) in
     no_spurious_match before inner ->
     data_loop (before ++ ki :: after) idx (wrapped before inner) = Attributed (idx + length before) code d.
   Proof.
-    induction before as [|k tl IH]; intros idx ki after code d Hc Hd inner Hns.
-    - cbn [app wrapped fold_right data_loop length]. unfold inner. rewrite crypt_data_involutive.
+    induction before as [|k tl IH]; intros idx ki after code d Hc Hd inner Hns; subst inner.
+    - cbn [app wrapped fold_right data_loop length]. rewrite crypt_data_involutive.
       unfold OnionFail.failure_plain at 1 2.
       rewrite skipn_app, skipn_all2, hmac_length, Nat.sub_diag by (rewrite hmac_length; lia).
       rewrite firstn_app, firstn_all2, hmac_length, Nat.sub_diag by (rewrite hmac_length; lia).
@@ -193,12 +193,15 @@ Section Return.
       rewrite read_failure_plain by (try assumption; unfold DEFAULT_MIN_FAILURE_PACKET_LEN; lia).
       unfold be16 at 1. cbn [app].
       f_equal; [lia|]. change [b1 code; b0 code] with (be16 code ++ []). now apply of_be16_be16_app.
-    - cbn [app wrapped fold_right data_loop length]. fold (wrapped tl inner).
+    - cbn [app wrapped fold_right data_loop length].
+      set (inner := crypt_data ki (failure_plain ki code d DEFAULT_MIN_FAILURE_PACKET_LEN)) in *.
+      fold (wrapped tl inner).
       rewrite crypt_data_involutive.
       cbn [no_spurious_match] in Hns. destruct Hns as [Hk Hns].
       destruct (bytes_eqb (hmac (fk_um k) (skipn 32 (wrapped tl inner))) (firstn 32 (wrapped tl inner))) eqn:E.
       + apply bytes_eqb_eq in E. contradiction.
-      + cbn [negb]. rewrite (IH (S idx) ki after code d Hc Hd Hns). f_equal. lia.
+      + cbn [negb]. pose proof (IH (S idx) ki after code d Hc Hd Hns) as H'. cbv zeta in H'.
+        subst inner. rewrite H'. f_equal. lia.
   Qed.
 
   (** C14, attribution.  For every path, every failing position, every code and data that fit a
@@ -206,7 +209,7 @@ Section Return.
       as coming from hop [i], with the code and the data - barring a spurious HMAC match at an
       earlier hop. *)
   Theorem failure_attributed before ki after code d hold_i :
-    (0 <= code < 65536)%Z -> 2 + length d < 65535 ->
+    (0 <= code < 65536)%Z -> (2 + Z.of_nat (length d) < 65535)%Z ->
     no_spurious_match (map fst before)
       (crypt_data ki (failure_plain ki code d DEFAULT_MIN_FAILURE_PACKET_LEN)) ->
     fst (process_onion_failure (map fst before ++ ki :: after) (failure_at_sender before ki code d hold_i))
